@@ -33,6 +33,7 @@ typedef struct {
 static __thread TCTX tctx;
 
 static ESL_WORK_QUEUE *g_wq      = NULL;
+static ESL_THREADS    *g_thr     = NULL;
 static ESL_DSQDATA    *g_dd      = NULL;
 static int             g_perturb = 0;      /* 0..100: probability (%) of a perturbation at a lock operation */
 static int             g_blk[64];          /* block payloads; block id = index */
@@ -93,12 +94,23 @@ static void log_region(char end)
   g_nevents++;
 }
 
+/* esl_threads start gate: one record per region under startMutex: tid/op/phase/end/startThread/threadCount */
+static void log_thr(char end)
+{
+  char buf[128];
+  snprintf(buf, sizeof(buf), "%s%d/%c/%c/%c/%d/%d", g_nevents ? ";" : "", tctx.tid, tctx.op, tctx.phase ? 'w' : 'f', end,
+           g_thr->startThread, g_thr->threadCount);
+  tappend(buf);
+  g_nevents++;
+}
+
 int __wrap_pthread_mutex_lock(pthread_mutex_t *m)
 {
   int r;
   perturb();
   r = __real_pthread_mutex_lock(m);
   if (g_wq && m == &g_wq->queueMutex && tctx.active) tctx.phase = 0;
+  if (g_thr && m == &g_thr->startMutex && tctx.active) tctx.phase = 0;
   return r;
 }
 
@@ -106,6 +118,7 @@ int __wrap_pthread_mutex_unlock(pthread_mutex_t *m)
 {
   int r;
   if (g_wq && m == &g_wq->queueMutex && tctx.active) log_region('u');
+  if (g_thr && m == &g_thr->startMutex && tctx.active) log_thr('u');
   if (g_dd && m == &g_dd->nchunk_mutex) tctx.last_nchunk = g_dd->nchunk;
   r = __real_pthread_mutex_unlock(m);
   perturb();
@@ -116,8 +129,10 @@ int __wrap_pthread_cond_wait(pthread_cond_t *c, pthread_mutex_t *m)
 {
   int r;
   if (g_wq && m == &g_wq->queueMutex && tctx.active) log_region('c');
+  if (g_thr && m == &g_thr->startMutex && tctx.active) log_thr('c');
   r = __real_pthread_cond_wait(c, m);
   if (g_wq && m == &g_wq->queueMutex && tctx.active) tctx.phase = 1;
+  if (g_thr && m == &g_thr->startMutex && tctx.active) tctx.phase = 1;
   return r;
 }
 
@@ -282,6 +297,58 @@ static void op_wqrun(void)
   }
   esl_workqueue_Destroy(g_wq);
   g_wq = NULL; g_perturb = 0;
+}
+
+/* ---------------------------------------------------------------------------------------------
+ * esl_threads: start rendezvous
+ * ------------------------------------------------------------------------------------------- */
+static int      th_N, th_arrived, th_startorder, th_early, th_badidx, th_idxseen[64], th_data[64];
+static uint64_t th_seed;
+
+static void th_worker(void *arg)
+{
+  ESL_THREADS *obj = (ESL_THREADS *) arg;
+  int idx = -1, st;
+  memset(&tctx, 0, sizeof(tctx));
+  tctx.tid = __sync_fetch_and_add(&th_startorder, 1);
+  tctx.rng = th_seed * 1000003ull + 7919ull * (tctx.tid + 1);
+  perturb();
+  __sync_fetch_and_add(&th_arrived, 1);
+  tctx.active = 1; tctx.op = 'A';
+  st = esl_threads_Started(obj, &idx);
+  tctx.active = 0;
+  if (__sync_fetch_and_add(&th_arrived, 0) != th_N) __sync_fetch_and_add(&th_early, 1);   /* passed the gate before everybody arrived */
+  if (st != eslOK || idx < 0 || idx >= th_N || esl_threads_GetData(obj, idx) != (void *) &th_data[idx]
+      || esl_threads_GetWorkerCount(obj) != th_N || __sync_fetch_and_add(&th_idxseen[idx], 1) != 0)
+    __sync_fetch_and_add(&th_badidx, 1);
+  perturb();
+  esl_threads_Finished(obj, idx);
+}
+
+static void op_thrun(void)
+{
+  int N = (int) h_argi("workers", 2), R = (int) h_argi("rounds", 1), r, i, ok = 1, early = 0, badidx = 0;
+  if (N < 1 || N > 32 || R < 1 || R > 8) { h_out("bad-op"); return; }
+  th_seed = h_argu("seed", 1);
+  g_perturb = (int) h_argi("pert", 30);
+  memset(&tctx, 0, sizeof(tctx)); tctx.tid = 1000; tctx.rng = th_seed * 0x9E3779B97F4A7C15ull + 5;
+  g_tlen = 0; g_nevents = 0; if (g_trace) g_trace[0] = 0;
+  g_thr = esl_threads_Create(&th_worker);
+  for (r = 0; r < R; r++) {
+    th_N = N; th_arrived = 0; th_startorder = 0; th_early = 0; th_badidx = 0; memset(th_idxseen, 0, sizeof(th_idxseen));
+    for (i = 0; i < N; i++) { perturb(); if (esl_threads_AddThread(g_thr, &th_data[i]) != eslOK) ok = 0; }
+    tctx.active = 1; tctx.op = 'T';
+    if (esl_threads_WaitForStart(g_thr) != eslOK) ok = 0;
+    tctx.active = 0;
+    if (esl_threads_WaitForFinish(g_thr) != eslOK) ok = 0;
+    if (esl_threads_GetWorkerCount(g_thr) != 0) ok = 0;
+    early += th_early; badidx += th_badidx;
+    for (i = 0; i < N; i++) if (th_idxseen[i] != 1) badidx++;
+    tappend(g_nevents ? ";0/F/f/u/0/0" : "0/F/f/u/0/0"); g_nevents++;
+  }
+  h_out("%s workers=%d rounds=%d idx=%s early=%d trace=%s", ok ? "ok" : "fail", N, R, badidx ? "bad" : "ok", early, g_trace);
+  esl_threads_Destroy(g_thr);
+  g_thr = NULL; g_perturb = 0;
 }
 
 /* ---------------------------------------------------------------------------------------------
@@ -555,12 +622,12 @@ static void h_op(void)
   else if (strcmp(op, "rt2") == 0)         op_rt(0);
   else if (strcmp(op, "unpackchunk") == 0) op_unpackchunk();
   else if (strcmp(op, "wq") == 0)          op_wq();
-  else if (strcmp(op, "wqrun") == 0 || strcmp(op, "dsqrt") == 0) {
+  else if (strcmp(op, "wqrun") == 0 || strcmp(op, "dsqrt") == 0 || strcmp(op, "thrun") == 0) {
     /* watchdog: a deadlock becomes a process death ("fault signal:14" for this case). One deadlock per check run is
      * enough evidence: later threaded ops of the same run are answered at once instead of waiting 20 s each. */
     if (access("c12_deadlock_seen", F_OK) == 0) { h_out("fault deadlock-seen-earlier-in-this-run"); return; }
     signal(SIGALRM, on_alarm); alarm(20);
-    if (op[0] == 'w') op_wqrun(); else op_dsqrt();
+    if (op[0] == 'w') op_wqrun(); else if (op[0] == 't') op_thrun(); else op_dsqrt();
     alarm(0);
   }
   else h_out("bad-op");
